@@ -28,13 +28,13 @@ const c14EnumCases = 8
 func init() {
 	Registry["C14"] = &Prop{
 		Plan: func(tier string) Plan {
-			return Plan{Level: "exploration", NCases: c14EnumCases + pick(tier, 24, 3000), Batch: 4, CaseTimeout: 120,
+			return Plan{Level: "exploration", NCases: c14EnumCases + pick(tier, 64, 3000), Batch: 4, CaseTimeout: 120,
 				Rule: "cases 0-7: ALL interleavings of the steps of 3 candidates (34650) and of 2 candidates (70), each candidate running Get->(Create|Update) twice as client-go's tryAcquireOrRenew issues them (plus all 252 interleavings of 2 candidates running Get,write,write,Get,write, i.e. a rejected write retried without a fresh Get; and all interleavings of 2 x Get,write,Get,release / 2 x Get,write,release / 3 x Get,write,release, where release is client-go's Update naming no holder sent without a fresh Get; and all 20 interleavings of 2 x Get,info,write on locks of real backends, where info is a request for the node's election info answered by its election service between the loop's Get and its write), on memkv through the real resourcelock.Interface, split over 8 cases and checked in lock-step against a register model (Create succeeds iff absent; Update succeeds iff the stored bytes equal what this candidate last read; stored record == last successful write; uncontended Get->Update succeeds). " +
 					"further cases: PRNG samples of 300 interleavings on Badger / TiKV mock / locks obtained from real backends, and concurrent goroutine stress with commit delays whose recorded history is checked with porcupine against a compare-and-swap register. Every record written carries a unique counter. " +
 					"non-trivial = interleaving in which >=2 candidates wrote from the same observed record (so at least one write had to fail); distinct by interleaving",
 				Assumptions: []string{"lease timing is not modelled: candidates always try to take the lock, which exercises strictly more write attempts than client-go would make",
 					"the memkv step enumeration is complete for 2 and 3 candidates x 2 rounds; everything else is sampled"},
-				MinConcl: 8 + pick(tier, 18, 2500)}
+				MinConcl: 8 + pick(tier, 50, 2500)}
 		},
 		Name: func(c *harness.Case) string {
 			if c.Index < c14EnumCases {
@@ -447,7 +447,7 @@ type lockOut struct {
 
 func runC14Concurrent(c *harness.Case) {
 	r := c.Rng
-	kind := []string{"memkv", "badger", "tikv"}[r.Intn(3)]
+	kind := []string{"badger", "memkv", "tikv", "badger"}[(c.Index/4)%4]
 	eng, err := harness.NewEngine(kind)
 	if err != nil {
 		c.Inconclusive(err.Error())
@@ -477,7 +477,7 @@ func runC14Concurrent(c *harness.Case) {
 	var mu sync.Mutex
 	var ops []porcupine.Operation
 	var wg sync.WaitGroup
-	rounds := 25 + r.Intn(25)
+	rounds := 40 + r.Intn(40)
 	// a barrier per round releases the candidates together (just scheduling: any of them may still be first)
 	barriers := make([]chan struct{}, rounds)
 	for i := range barriers {
